@@ -257,9 +257,23 @@ def abstract_mesh(draw, max_j=3, max_i=4, allow_delete=True, allow_merge=True, j
             choice = draw(st.sampled_from(
                 ["quad", "quad", "tri_a", "tri_b"]
                 + (["del"] if allow_delete else [])
-                + (["right", "down", "ell"] if allow_merge else [])))
+                + (["right", "down", "ell", "penta", "hepta"] if allow_merge else [])))
             cells = [(j, i)]
             kind = choice
+            if choice in ("penta", "hepta"):
+                # the cell is split along a diagonal; one triangle is merged with the one or two
+                # cells to its right, giving a face with an odd number of nodes (5 or 7)
+                extra = 1 if choice == "penta" else 2
+                right = [(j, i + k) for k in range(1, extra + 1)]
+                if i + extra < ni and all(c not in group for c in right):
+                    a, b, c, d = (j, i), (j, i + 1), (j + 1, i + 1), (j + 1, i)
+                    top = [(j, i + k) for k in range(2, extra + 2)]
+                    bottom = [(j + 1, i + k) for k in range(extra + 1, 1, -1)]
+                    for cell in [(j, i)] + right:
+                        group[cell] = len(groups)
+                    groups.append(("rings", [[a, c, d], [a, b] + top + bottom + [c]]))
+                    continue
+                kind = "quad"
             if choice in ("right", "ell") and i + 1 < ni and (j, i + 1) not in group:
                 cells.append((j, i + 1))
                 kind = "merged"
@@ -282,7 +296,9 @@ def abstract_mesh(draw, max_j=3, max_i=4, allow_delete=True, allow_merge=True, j
     for kind, cells in groups:
         if kind == "del":
             continue
-        if kind in ("quad", "merged"):
+        if kind == "rings":
+            faces_lat.extend(cells)
+        elif kind in ("quad", "merged"):
             faces_lat.append(_ring_of_cells(cells))
         else:
             (j, i), = cells
